@@ -2,7 +2,8 @@
 """run_seeded.py [ids...]: for each /verif/seeded/<id>/patch.diff apply it to /repo, run every claimed check's
 quick_cmd, undo, and report which checks raise a VIOLATION (and which go INCONCLUSIVE). Writes seeded/<id>/detect.json."""
 import json, os, subprocess, sys
-ROOT = "/verif"
+ROOT = os.path.dirname(os.path.dirname(os.path.abspath(__file__)))
+REPO = os.environ.get("VERIF_REPO", "/repo")
 man = json.load(open(ROOT + "/MANIFEST.json"))
 props = [c["property_id"] for c in man["checks"]]
 extra = [a for a in sys.argv[1:] if a.startswith("+")]
@@ -13,7 +14,7 @@ for i in ids:
     p = os.path.join(d, "patch.diff")
     if not os.path.exists(p):
         continue
-    r = subprocess.run(["git", "-C", "/repo", "apply", p], capture_output=True, text=True)
+    r = subprocess.run(["git", "-C", REPO, "apply", p], capture_output=True, text=True)
     if r.returncode != 0:
         print(i, "PATCH FAILED", r.stderr[:200]); continue
     res = {}
@@ -32,7 +33,7 @@ for i in ids:
         if not res:
             print(i, "CHECK FAILED", r.stderr[-400:])
     finally:
-        subprocess.run(["git", "-C", "/repo", "checkout", "--", "."])
+        subprocess.run(["git", "-C", REPO, "checkout", "--", "."])
     json.dump(res, open(os.path.join(d, "detect.json"), "w"), indent=1)
     meta = {}
     try: meta = json.load(open(os.path.join(d, "meta.json")))
